@@ -21,10 +21,18 @@ struct Ep {
     optional: bool,
 }
 
+/// a JSON string document of exactly `n` bytes
+fn sized(n: usize) -> &'static str {
+    Box::leak(format!("\"{}\"", "a".repeat(n - 2)).into_boxed_str())
+}
+
 fn endpoints() -> Vec<Ep> {
     let str_bodies = vec![("\"\"", true), ("\"abcdef\"", true), ("\"abcdefg\"", true), ("\"abcdefgh\"", true), (" \"ab\" ", true), ("\"ab\" x", false), ("\"ab\"\"cd\"", false), ("\"ab", false), ("42", false), ("", false), ("null", false), ("\"\\u00e9\"", true)];
     vec![
         Ep { name: "smallBody", uri: "/u/body/small", handler: "small_body", limit: 8, bodies: str_bodies, optional: false },
+        // the units of the size-limit tag: 1 kb = 1000 bytes, 2Ki = 2048 bytes
+        Ep { name: "kbBody", uri: "/u/body/kb", handler: "kb_body", limit: 1000, bodies: vec![(sized(999), true), (sized(1000), true), (sized(1001), true), (sized(1024), true), (sized(1025), true)], optional: false },
+        Ep { name: "kibBody", uri: "/u/body/kib", handler: "kib_body", limit: 2048, bodies: vec![(sized(2000), true), (sized(2047), true), (sized(2048), true), (sized(2049), true)], optional: false },
         Ep {
             name: "bodyCollections",
             uri: "/u/body/collections",
@@ -110,6 +118,45 @@ pub fn run(args: &Args) -> Report {
                     }
                 }
             }
+        }
+    }
+    // the unit table of the size-limit tag, read back from the code generated for this build
+    let generated = include_str!(concat!(env!("OUT_DIR"), "/conjure/universal_service.rs"));
+    let flat: String = generated.split_whitespace().collect::<Vec<_>>().join(" ");
+    for (method, tag, want) in [
+        ("limit_plain", "77", 77u64),
+        ("limit_k", "3k", 3000),
+        ("limit_ki", "3 ki", 3072),
+        ("limit_mb", "3 mb", 3000000),
+        ("limit_m", "5M", 5000000),
+        ("limit_mib", "1MiB", 1048576),
+        ("limit_mi", "2 mi", 2097152),
+        ("limit_g", "1g", 1000000000),
+        ("limit_gb", "2 GB", 2000000000),
+        ("limit_gib", "2 GiB", 2147483648),
+        ("limit_gi", "1gi", 1073741824),
+        ("limit_t", "1t", 1000000000000),
+        ("limit_tb", "1tb", 1000000000000),
+        ("limit_tib", "1 TiB", 1099511627776),
+        ("limit_ti", "2ti", 2199023255552),
+        ("limit_b", "15b", 15),
+    ] {
+        report.states += 1;
+        report.evaluations += 1;
+        report.transitions += 1;
+        let needle = format!("fn {}(", method);
+        let limits: Vec<String> = flat
+            .match_indices(&needle)
+            .filter_map(|(i, _)| {
+                let tail = &flat[i..(i + 400).min(flat.len())];
+                tail.find("StdRequestDeserializer<").map(|j| tail[j + 23..].chars().take_while(|c| c.is_ascii_digit()).collect::<String>())
+            })
+            .collect();
+        let want_s = want.to_string();
+        if limits.len() >= 2 && limits.iter().all(|l| *l == want_s) {
+            report.outcome("size-limit-tag:unit-as-specified");
+        } else {
+            report.violation(format!("C06|loopback|size-limit-unit|{}", tag.replace(' ', "")), format!("endpoint tagged `server-limit-request-size: {}` is generated with limits {:?}, the tag means {} bytes", tag, limits, want_s), json!({"endpoint": method, "tag": tag}));
         }
     }
     report.sample("limit", json!({"endpoint": "smallBody (server-limit-request-size: 8b)", "body": "\"abcdefg\"", "chunks": "3-byte", "expect": "rejected: 9 bytes"}));
